@@ -234,6 +234,18 @@ def run(ctx):
         ctx.ob("R-C03.5", bt, "exactly-one-batch-commit", ok, "one WriteBatch::commit, outside the per-keyspace loop" if ok else "transaction commit issues %d batch commits%s: a crash between them splits the transaction" % (len(cb), " (in a loop)" if cb and A.in_cycle(bt, cb[0]) else ""))
         nb = [b for b, t in bt.calls() if A.cname(t) in ("batch::WriteBatch::new", "batch::WriteBatch::with_capacity")]
         ctx.ob("R-C03.5", bt, "exactly-one-batch", len(nb) == 1 and not A.in_cycle(bt, nb[0]), "one WriteBatch is built for the whole transaction (%d)" % len(nb), nontrivial=False)
+        # the loops visit every keyspace and every buffered entry: no adaptor drops elements
+        DROPPING = ("::take", "::skip", "::filter", "::step_by", "::take_while", "::skip_while", "::nth", "::filter_map", "::rev", "::last", "::min", "::max", "::find")
+        adaptors = [A.cname(t) for b, t in bt.calls() if ("iter::Iterator" in (t.get("callee") or "") or "iter::traits" in A.cname(t) or "Iterator>::" in A.cname(t)) and A.cname(t).endswith(DROPPING)]
+        outer = [b for b, t in bt.calls() if A.cname(t).endswith("::next") and (t.get("full") or "").startswith("<std::collections::hash_map::IntoIter<keyspace::Keyspace") and A.in_cycle(bt, b)]
+        src_ok = False
+        og_ = ctx.og(bt)
+        for b in outer:
+            it = og_.of_operand(bt.term(b)["args"][0])
+            src_ok = any(A.access_path(x) == ("P1", "memtables") for x in A.walk(it))
+        ctx.ob("R-C03.5", bt, "commits-every-keyspace-and-entry", bool(outer) and src_ok and not adaptors,
+               "the commit loop walks self.memtables (all keyspaces) and each memtable without element-dropping adaptors" if (outer and src_ok and not adaptors)
+               else "the commit does not visit every keyspace/entry of the transaction (adaptors: %s; iterates self.memtables: %s): part of the transaction would silently not be committed" % (adaptors, src_ok))
         # pushes go into that batch
         psh = [b for b, t in bt.calls() if A.cname(t).endswith("Vec::<T, A>::push")]
         ok = bool(psh) and bool(cb) and all(cb[0] in A.reach_after(bt, p) and p not in A.reach_after(bt, cb[0]) for p in psh)
